@@ -602,5 +602,5 @@ def build(workdir: str):
 def teardown(workdir: str):
     if workdir in sys.path:
         sys.path.remove(workdir)
-    for k in [k for k in sys.modules if k == PKG or k.startswith(PKG + ".")]:
+    for k in [k for k in sys.modules if k == PKG or k.startswith(PKG + ".") or k.startswith("c08fx_")]:
         del sys.modules[k]
